@@ -1,4 +1,6 @@
 import Driver.C04
+import Driver.C11_Nest
+import Driver.C18T
 import Driver.C03Asm
 import Driver.C01_Opnd
 import Driver.C19L
@@ -42,6 +44,8 @@ partial def loop (h : IO.FS.Stream) (out : IO.FS.Stream) (f : String → String)
   loop h out f
 
 def modes : List (String × (String → String)) := [
+  ("c11nest", C11Nest.handle),
+  ("c18t", C18T.handle),
   ("c03bin", C03Asm.handleBin),
   ("c03stk", C03Asm.handleStk),
   ("c16carry", C16.handleCarry),
